@@ -33,8 +33,9 @@ func init() {
 			"a line number is a number between 1 and the number of lines of the input (+1 for the position after a final newline)",
 			"schedules are explored through GOMAXPROCS values and repetition, not enumerated",
 		},
-		HardSec: 60,
-		Env:     []string{"GORACE=halt_on_error=1"},
+		HardSec:  60,
+		Env:      []string{"GORACE=halt_on_error=0 exitcode=0 log_path={OUT}/race"},
+		RaceLogs: true,
 	}, runC19)
 }
 
